@@ -704,3 +704,38 @@ func (s *Session) stdFloatToFixed(ki *KernelInfo, key string, in *Inst) []*Oblig
 	add("accuracy-nonpositive", []*Term{inside, Le(x, zero)}, And(Le(mk("-", SReal, tolOf(fsNeg)), dn), Le(dn, tolOf(fsNeg))))
 	return out
 }
+
+// thoroughBitPrecise: in the thorough tier the standard-model lemmas of C08 / C09 are
+// additionally attempted bit-precisely (IEEE-754 FloatingPoint theory) with the long budget.
+func (s *Session) thoroughBitPrecise(prop string, keys []string, lemmas []string) []*Obligation {
+	var out []*Obligation
+	for _, key := range keys {
+		fi, ct := s.prog.Funcs[key], s.cf.Funcs[key]
+		if fi == nil || ct == nil {
+			continue
+		}
+		for _, in := range s.instsFor(fi, ct) {
+			ki := s.preciseKernel(key, in)
+			if !ki.OK {
+				continue
+			}
+			ctx := NewCtx()
+			var x, y *Term
+			if isFloatT(ki.S) {
+				x, y = ctx.Const("x", fpSort(ki.S)), ctx.Const("y", fpSort(ki.S))
+			} else {
+				x, y = ctx.Const("x", SBV(ki.U.widthOf(ki.S))), ctx.Const("y", SBV(ki.U.widthOf(ki.S)))
+			}
+			for _, l := range lemmas {
+				assume, goal := bitPreciseLemma(l, ki, x, y)
+				if goal == nil {
+					continue
+				}
+				o := lemmaObl("bit-precise-"+l, key, in.Name, prop, ctx, assume, goal, "QF_FPBV")
+				o.Note = "thorough tier: bit-precise confirmation of the standard-model lemma"
+				out = append(out, o)
+			}
+		}
+	}
+	return out
+}
